@@ -23,7 +23,7 @@ CHECK = {
                  "quick": {"cases": 36, "shards": 8, "soft_s": 55, "shrinktime": "60s"},
                  "thorough": {"cases": 1200, "shards": 8, "soft_s": 420, "shrinktime": "120s"}}],
     "floors": {"several_distinct_crash_images": 0.05, "crash_at_request": 0.1, "crash_at_body": 0.05, "registry_republished_before_op": 0.04},
-    "rule": "rapid-generated (prior store state built through the API, one operation, crash points as positions within the operation's step / system-call sequence); each evaluation runs the "
+    "rule": "Added in the last session: injector (B) also kills first-time pulls, traces copy_file_range / sendfile, draws every other crash point among the calls with a lasting effect, and after a repeated pull deletes the model and pulls it again. rapid-generated (prior store state built through the API, one operation, crash points as positions within the operation's step / system-call sequence); each evaluation runs the "
             "uninterrupted operation once and 1-10 crashed runs. One case in six of injector (A) is the update scenario: a model is pulled, optionally copied to another name and/or used "
             "as the base of a created model, the registry publishes a new version under the same tag, and the interrupted operation is the second pull; half of the re-pulls of injector (B) "
             "have a local copy of the pulled model. Store images taken at crash points keep hard links (two names of one file stay one file); non-trivial = a crash point strictly inside the operation (some effect done, some pending); distinct = distinct hash of the case.",
